@@ -725,6 +725,22 @@ class TrioSvc(_SvcBase):
         return await self.h.run_async(self.pid, (), {}, trio.sleep, trio.Cancelled, mode="service")
 
 
+def _exc_text(record):
+    if not (record.exc_info and record.exc_info[1] is not None):
+        return None
+    import re
+    import traceback
+
+    def leaves(e, depth=0):
+        if isinstance(e, BaseExceptionGroup) and depth < 6:
+            return [x for sub in e.exceptions for x in leaves(sub, depth + 1)]
+        tb = traceback.extract_tb(e.__traceback__)[-3:]
+        return ["%s: %s @ %s" % (type(e).__name__, str(e)[:120], " < ".join("%s:%d:%s" % (f.filename.split("/")[-1], f.lineno, f.name) for f in reversed(tb)))]
+
+    txt = " | ".join(leaves(record.exc_info[1]))
+    return re.sub(r"0x[0-9a-fA-F]+", "0x?", txt)[:400]
+
+
 class LogCapture(logging.Handler):
     def __init__(self, h):
         super().__init__(level=0)
@@ -732,4 +748,4 @@ class LogCapture(logging.Handler):
 
     def emit(self, record):
         if record.name.startswith("cobald"):
-            self.h.log_records.append({"logger": record.name, "level": record.levelno, "msg": str(record.msg)[:80], "exc": record.exc_info[0].__name__ if record.exc_info and record.exc_info[0] else None, "t": round(S.now, 6)})
+            self.h.log_records.append({"logger": record.name, "level": record.levelno, "msg": str(record.msg)[:80], "exc": record.exc_info[0].__name__ if record.exc_info and record.exc_info[0] else None, "exc_text": _exc_text(record), "t": round(S.now, 6)})
